@@ -28,7 +28,10 @@ RULE = (
     "strictly inside a frame. Distinctness by the literal line / stream / (bytes, cuts). Coverage-guided campaigns (atheris/libFuzzer, "
     "class 'fuzz'): 16 processes, each a libFuzzer run over 'RSSI frame' text with a structure-aware mutator (payload hex digits/bytes/"
     "chunks with the length kept in step, verb, code, device type, address shape; raw byte mutations 1 time in 16) and the same "
-    "check_line() oracle inside the target; 15 start from disjoint slices of the corpus, one from an empty corpus."
+    "check_line() oracle inside the target; 15 start from disjoint slices of the corpus, one from an empty corpus. Gateway level (class "
+    "'gateway'): 10-60-packet mutated histories (as C13, incl. adjacent array pairs) received by a real ramses_rf.Gateway on the serial rig; "
+    "anything the loop's exception handler gets from a callback that entered the library in ramses_tx, Gateway._msg_handler or the dispatcher "
+    "escaped the receive path (exceptions inside an entity's own scheduled _handle_msg are tallied, not judged); non-trivial = mutated history."
 )
 
 DTM = datetime(2024, 3, 1, 12, 0, 0, 123456)
@@ -562,6 +565,38 @@ def explore_partitions(job: dict) -> dict:
 
 
 # ------------------------------------------------------------------------------------------------
+RECEIVE_PATH_ENTRIES = ("ramses_tx/", "ramses_rf/gateway.py", "ramses_rf/dispatcher.py")
+
+
+def explore_gateway(job: dict) -> dict:
+    """The same clause one layer up: packet histories received by a real ramses_rf.Gateway (serial port rig). Whatever the event loop's
+    exception handler gets from a callback that ENTERED the library in the transport, the protocol, Gateway._msg_handler or the
+    dispatcher escaped the receive path (exceptions raised inside an entity's own _handle_msg, which the dispatcher schedules as a
+    callback of its own - e.g. the reporting of a schema inconsistency - are state handling, C13/C15's business: tallied)."""
+    from vf.env import gwrig
+    from vf.env.quiet import quiet_logs
+    from vf.gen.histories import history
+
+    quiet_logs()
+    col = Collector()
+
+    def body(h: dict) -> None:
+        obs = gwrig.run(dict(h, probe=False, ops=[]))
+        esc = [le for le in obs["loop_exceptions"] if le["entry"].startswith(RECEIVE_PATH_ENTRIES)]
+        col.case(nt=jdump(h["frames"]) if h.get("mutations") else None,
+                 classes=["gateway", "gateway:mutated" if h.get("mutations") else "gateway:verbatim", "gateway:array-pair" if "array-pair" in h.get("mutations", []) else "gateway:no-array-pair"],
+                 sample={"system": h.get("system"), "n": len(h["frames"]), "mutations": h.get("mutations"), "head": h["frames"][:3]})
+        for le in obs["loop_exceptions"]:
+            if le not in esc:
+                col.note(f"exception inside an entity's message handler (tallied): {le['exc']} @ {le['site']}")
+        for le in esc:
+            col.violation({"clause": "exception-escapes", "exc": le["exc"], "site": le["site"], "via": "gateway"}, {"history": h},
+                          f"{le['message']}: {le['exc']}: {le['text']} (entered at {le['entry']})")
+
+    hyp_explore(history(max_len=60), body, job["n"], job["seed"])
+    return col.dump()
+
+
 def explore_fuzz(job: dict) -> dict:
     """Coverage-guided campaign (atheris / libFuzzer, structure-aware mutator) with this module's check_line() as the target's oracle."""
     from vf import fuzz
@@ -587,6 +622,7 @@ def run(ctx: Ctx, col: Collector) -> None:
     ctx.parallel(explore_streams, ctx.shards(ctx.n(2_400, 60_000), per_shard_min=20), col)
     ctx.parallel(explore_streams, ctx.shards(ctx.n(1_200, 30_000), per_shard_min=20, via="mqtt"), col)
     ctx.parallel(explore_partitions, ctx.shards(ctx.n(640, 16_000), per_shard_min=10), col)
+    ctx.parallel(explore_gateway, ctx.shards(ctx.n(320, 12_000), per_shard_min=10), col)
     from vf import fuzz
 
     if fuzz.available():
@@ -611,6 +647,13 @@ def replay(case: dict) -> list[tuple[dict, str]]:
         check_stream(col, [dict(it, bad=False) for it in case["stream"]])
     elif "dict" in case:
         check_stream(col, [{"dtm": k, "line": v, "bad": False} for k, v in case["dict"].items()])
+    elif "history" in case:
+        from vf.env import gwrig
+
+        obs = gwrig.run(dict(case["history"], probe=False, ops=[]))
+        for le in obs["loop_exceptions"]:
+            if le["entry"].startswith(RECEIVE_PATH_ENTRIES):
+                col.violation({"clause": "exception-escapes", "exc": le["exc"], "site": le["site"], "via": "gateway"}, case, f"{le['exc']}: {le['text']}")
     elif "elements" in case:
         els = [{"kind": e["kind"], "data": e["data"].encode("latin-1")} for e in case["elements"]]
         cuts = case.get("cuts")
